@@ -407,6 +407,53 @@ func checkC06(w *World, r *Recorder) propInfo {
 			}
 		}
 	}
+	// … and no accumulator is extended by an append whose base had its spare
+	// capacity cut off (slices.Clip, s[:len(s):len(s)]): every such append
+	// reallocates and copies all earlier elements, so filling the list entry by
+	// entry costs quadratic allocation
+	for _, fn := range sortedFuncs(reach) {
+		if !inScope(fn) || fn.Blocks == nil {
+			continue
+		}
+		for _, b := range fn.Blocks {
+			for _, in := range b.Instrs {
+				c, ok := in.(*ssa.Call)
+				if !ok {
+					continue
+				}
+				bi, isB := c.Call.Value.(*ssa.Builtin)
+				if !isB || bi.Name() != "append" || len(c.Call.Args) < 2 {
+					continue
+				}
+				var src ssa.Value
+				what := ""
+				switch x := c.Call.Args[0].(type) {
+				case *ssa.Call:
+					if strings.HasPrefix(calleeName(&x.Call), "slices.Clip") && len(x.Call.Args) == 1 {
+						src, what = x.Call.Args[0], "slices.Clip"
+					}
+				case *ssa.Slice:
+					if x.Max != nil {
+						src, what = x.X, "a full slice expression capping the capacity"
+					}
+				}
+				if src == nil {
+					continue
+				}
+				// stored back to where the base was loaded from?
+				ld, ok := src.(*ssa.UnOp)
+				if !ok {
+					continue
+				}
+				for _, ref := range *c.Referrers() {
+					if st, ok := ref.(*ssa.Store); ok && st.Val == ssa.Value(c) && sameAddress(st.Addr, ld.X) {
+						nA5++
+						r.Refute("C06-A5", fmt.Sprintf("%s#clipped-append", fnKey(fn)), w.InstrPos(c), fmt.Sprintf("the list is extended by append on a base whose spare capacity was removed by %s and stored back: each call reallocates and copies every earlier element, so building it entry by entry from the input allocates quadratically", what))
+					}
+				}
+			}
+		}
+	}
 	r.Count("accumulating_loops", nA5)
 	r.Prove("C06-A5", "scan", "-", fmt.Sprintf("%d decode-reachable functions scanned for loop-carried accumulation through superlinear builders", len(reach)), false)
 
@@ -702,6 +749,14 @@ func classifyLoop(w *World, fn *ssa.Function, h *ssa.BasicBlock, li *loopInfo, t
 			}
 		}
 	}
+	// any other exit test on a value that is not derived from input bytes
+	// (struct tags, type information, lengths of the library's own tables)
+	if ifi, ok := h.Instrs[len(h.Instrs)-1].(*ssa.If); ok {
+		exits := !li.blocks[h.Succs[0]] || !li.blocks[h.Succs[1]]
+		if exits && !ts.vals[ifi.Cond] && !condDependsOnTaint(ifi.Cond, ts, 0) {
+			return "input-independent", "exit test " + ifi.Cond.Name() + " is not derived from input bytes"
+		}
+	}
 	// consume rule
 	if ok, why := consumesInput(w, fn, h, li); ok {
 		return "consumes-input", why
@@ -963,4 +1018,59 @@ func loopBoundConstant(b *ssa.BasicBlock) bool {
 	_, c1 := cmp.X.(*ssa.Const)
 	_, c2 := cmp.Y.(*ssa.Const)
 	return c1 || c2
+}
+
+// sameAddress: two address expressions denote the same field of the same base.
+func sameAddress(a, b ssa.Value) bool {
+	if a == b {
+		return true
+	}
+	fa, ok1 := a.(*ssa.FieldAddr)
+	fb, ok2 := b.(*ssa.FieldAddr)
+	return ok1 && ok2 && fa.Field == fb.Field && fa.X == fb.X
+}
+
+// condDependsOnTaint: some operand the condition is computed from (through φ,
+// arithmetic, comparisons, extracts and conversions) is tainted.
+func condDependsOnTaint(v ssa.Value, ts *taintSum, depth int) bool {
+	if depth > 6 {
+		return true // cannot tell: treat as dependent
+	}
+	if ts.vals[v] {
+		return true
+	}
+	var ops []ssa.Value
+	switch x := v.(type) {
+	case *ssa.Phi:
+		ops = x.Edges
+	case *ssa.BinOp:
+		ops = []ssa.Value{x.X, x.Y}
+	case *ssa.UnOp:
+		ops = []ssa.Value{x.X}
+	case *ssa.Extract:
+		ops = []ssa.Value{x.Tuple}
+	case *ssa.Convert:
+		ops = []ssa.Value{x.X}
+	case *ssa.Call:
+		for _, a := range x.Call.Args {
+			ops = append(ops, a)
+		}
+	default:
+		return false
+	}
+	for _, o := range ops {
+		if o == v {
+			continue
+		}
+		if _, isPhi := o.(*ssa.Phi); isPhi && depth > 2 {
+			if ts.vals[o] {
+				return true
+			}
+			continue
+		}
+		if condDependsOnTaint(o, ts, depth+1) {
+			return true
+		}
+	}
+	return false
 }
